@@ -883,8 +883,25 @@ fn look_behind_sensitive(cb: &Canon) -> bool {
     matches!(t, T::MacroLabel | T::MacroSep | T::DatalinesStart | T::MacroIdentifier) || spaces::is_macro_stat_kw(t)
 }
 
+/// A generated well-formed program is a closed prefix by the grammar (C15's quantifier names
+/// "generated well-formed programs" next to "strings that the lexer itself leaves in the initial
+/// configuration"): only the syntactic half is tested - it ends in a consumed `;` or a complete
+/// statement-level comment - not what the hook says about the configuration it leaves. On a tree
+/// where C12 holds the two coincide; where a change makes a well-formed program leave state
+/// behind, that state is exactly what must not influence the continuation.
+pub fn closed_prefix_by_grammar(src: &str, r: &LexResult) -> bool {
+    BY_GRAMMAR.with(|c| c.set(true));
+    let v = closed_prefix(src, r);
+    BY_GRAMMAR.with(|c| c.set(false));
+    v
+}
+
+thread_local! {
+    static BY_GRAMMAR: std::cell::Cell<bool> = const { std::cell::Cell::new(false) };
+}
+
 pub fn closed_prefix(src: &str, r: &LexResult) -> bool {
-    if !is_closed(r) || src.is_empty() {
+    if !(is_closed(r) || BY_GRAMMAR.with(std::cell::Cell::get) && r.errors.is_empty()) || src.is_empty() {
         return false;
     }
     let infos: Vec<_> = r.buffer.iter_tokens_infos().collect();
@@ -1177,13 +1194,26 @@ fn c15_run(cfg: &Config) -> PropRun {
     let mut a_list = closed.into_inner().unwrap();
     // generated well-formed programs are closed prefixes too
     for p in crate::grammar::programs(2, false) {
-        // only those that end in a consumed ';' / comment and leave the initial configuration
+        // only those that end in a consumed ';' / comment
         if let Outcome::Ok(r) = run_lexer(&p) {
-            if closed_prefix(&p, &r) {
+            if closed_prefix_by_grammar(&p, &r) {
                 a_list.push(p);
             }
         }
     }
+    // the rare-context programs (every rarely used statement, blocks that end in an unterminated
+    // fragment, every built-in argument position) are closed prefixes as well
+    // (they are many: paired with the short continuations only, step 2c)
+    let mut a2_list: Vec<String> = Vec::new();
+    for p in crate::grammar::rare_programs("") {
+        if let Outcome::Ok(r) = run_lexer(&p) {
+            if closed_prefix_by_grammar(&p, &r) {
+                a2_list.push(p);
+            }
+        }
+    }
+    a2_list.sort();
+    a2_list.dedup();
     for p in C15_STATEFUL_A {
         if let Outcome::Ok(r) = run_lexer(p) {
             if closed_prefix(p, &r) {
@@ -1349,6 +1379,55 @@ fn c15_run(cfg: &Config) -> PropRun {
         },
     );
     report.absorb(pairs_lit);
+    // 2c. the rare-context programs as closed prefixes, with the short continuations: the
+    // single atoms, the hand-written look-behind / literal continuations and the statement leaves
+    let mut b2: Vec<usize> = Vec::new();
+    {
+        let mut short: Vec<String> = C15_ATOMS.iter().map(|s| (*s).to_string()).collect();
+        short.extend(C15_EXTRA_B.iter().map(|s| (*s).to_string()));
+        short.extend(C15_LITERAL_B.iter().map(|s| (*s).to_string()));
+        short.extend(crate::grammar::programs(0, false));
+        for sh in short {
+            if let Ok(i) = b_list.binary_search(&sh) {
+                b2.push(i);
+            }
+        }
+        b2.sort_unstable();
+        b2.dedup();
+    }
+    let a2_canon: Vec<Option<Canon>> = a2_list.iter().map(|a| lex_canon(a).map(|x| x.1)).collect();
+    let nb2 = b2.len() as u64;
+    let pairs2 = ex.run_list(
+        "C15.pairs(A rare-context programs, B short continuations)",
+        a2_list.len() as u64 * nb2,
+        |i, buf| {
+            buf.push_str(&a2_list[(i / nb2) as usize]);
+            buf.push_str(&b_list[b2[(i % nb2) as usize]]);
+        },
+        |local, input, i| {
+            let ai = (i / nb2) as usize;
+            let bi = b2[(i % nb2) as usize];
+            local.lexer_runs += 1;
+            let (Some(ca), Some(cb)) = (&a2_canon[ai], &b_canon[bi]) else {
+                local.unobservable += 1;
+                return Visit { cfg: None, nontrivial: false };
+            };
+            match lex_canon(input) {
+                None => {
+                    local.unobservable += 1;
+                    Visit { cfg: None, nontrivial: false }
+                }
+                Some((r, cab)) => {
+                    let exp = compose(&a2_list[ai], ca, cb);
+                    if let Some(d) = exp.diff(&cab) {
+                        local.finding(format!("C15 compose.{d}"), &format!("{}\u{1f}{}", a2_list[ai], b_list[bi]));
+                    }
+                    Visit { cfg: Some(cfg_hash(&r)), nontrivial: !cb.errs.is_empty() || cb.toks.len() > 2 }
+                }
+            }
+        },
+    );
+    report.absorb(pairs2);
     // 3. corpus split points: A = prefix up to a closed boundary, B = the rest
     let corpus = spaces::load_corpus(&cfg.corpus_dir);
     let mut splits: Vec<(usize, usize)> = Vec::new();
